@@ -48,7 +48,7 @@ def work(job):
         return dict(out, status="violation", confirmed=(got == v["name"]),
                     why="name %r is read at line %d but unbound on the path with loops at lines %s taken zero times "
                         "(exec replay raised NameError for %r); all unbound names: %s" % (v["name"], v["line"], zero, got, names),
-                    sig={"engine": "E2", "unbound_kind": unbound_kind(spec, v["name"]),
+                    sig={"engine": "E2", "unbound_kind": unbound_kind(spec, v["name"], text.split("\n")[v["line"] - 1] if 0 < v["line"] <= text.count("\n") + 1 else ""),
                          "family": (spec.get("tags") or {}).get("family")},
                     replay={"spec": spec, "metrics": metrics, "text": text, "violation": v, "user_names": sorted(user)})
     tw = pathsat.delete_binding_twin(text, user)
